@@ -1,7 +1,7 @@
 (* C09 - trash-list shows exactly what is in the trash after any history of commands.
-   FULL STATEMENT (not proved in Coq: "what is in the trash" is a fact about the file system, for which this
-   development has no model; the check's oracle decides it against an independent bag model over generated
-   histories of the five commands): the multiset of lines trash-list prints = { date ++ " " ++ path } over
+   FULL STATEMENT (the bag view over whole histories of the five commands is decided by the check's oracle against an
+   independent bag model; the per-command facts it rests on are theorems here and in C05/C10/C12/C13/C15, on traces and on
+   the file-system model World): the multiset of lines trash-list prints = { date ++ " " ++ path } over
    the entries present in the home trash and every usable volume trash directory.
    PROVED HERE (what trash-list does with what it finds, for every content):
    (a) one readable entry with a Path line yields exactly ONE stdout record  date SP volume-joined-path LF  -
@@ -10,9 +10,23 @@
    (c) which directories are scanned: the home trash, and per volume .Trash/$uid only when secure (C08) and
        .Trash-$uid when it is a directory: Scan.scan_trash_dirs;
    (d) the commands that change the bag do so entry-wise: put adds one pair after the other checks (C05),
-       restore/rm/empty remove payload then info of exactly the selected entries (C13, C12, C10, C15). *)
-From TV Require Import Prelude.Str Prelude.PosixPath Codec.TrashInfo Prog.Prog Cmd.Put Cmd.Scan Cmd.ListCmd Proofs.ProgProofs.
+       restore/rm/empty remove payload then info of exactly the selected entries (C13, C12, C10, C15);
+   (e) trash-list itself changes nothing: it issues no mutating operation, every file system a run is consistent with is
+       afterwards what it was (list_issues_no_mutation, list_changes_nothing). *)
+From TV Require Import Prelude.Str Prelude.PosixPath Codec.TrashInfo Prog.Prog Cmd.Put Cmd.Scan Cmd.ListCmd Proofs.ProgProofs World.World Proofs.ListReadOnly.
 Open Scope N_scope.
+
+(* looking is not touching: trash-list issues no mutating operation, so every file system a run is consistent with is afterwards
+   what it was - what it showed is still there *)
+Theorem list_issues_no_mutation : forall o,
+  all_runs (fun t _ => Forall (fun p => is_mutator (fst p) = false) t) (list_main o).
+Proof. exact list_issues_no_mutation_lemma. Qed.
+Print Assumptions list_issues_no_mutation.
+
+Theorem list_changes_nothing : forall o,
+  all_runs (fun t _ => forall s s', wrun s t s' -> same s s') (list_main o).
+Proof. exact list_changes_nothing_lemma. Qed.
+Print Assumptions list_changes_nothing.
 
 Theorem one_entry_one_line : forall o volume p contents rel,
   lo_size o = false -> lo_files o = false -> parse_path contents = Some rel ->
